@@ -211,6 +211,32 @@ def window_gate(ctx, rep, rule, clause):
         return None
     closes = []
     for e in an.events('WSTORE'):
+        # `self.closed = self.closed or self.nb_finite == 0`: the closing value under the test, in one expression
+        v = e.data['val']
+        if v[0] == 'boolop' and len(v[2]) == 2 and any((e.data['attr'], pol) in closing for pol in (True, False)):
+            pol = [pol for pol in (True, False) if (e.data['attr'], pol) in closing][0]
+            flag = _wterm(e.data['attr'])
+            others = [x for x in v[2] if x != flag]
+            if len(others) == 1 and v[1] == ('or' if pol else 'and'):
+                o_ = others[0]
+                neg = False
+                while o_[0] == 'unop' and o_[1] == 'not':
+                    o_, neg = o_[2], not neg
+                for K in e.data['wdec']:
+                    KA = _wterm(K)
+                    how = None
+                    if o_ == KA and (neg == pol):
+                        how = ('zero', None)            # `closed or not count` / `open and count`
+                    elif o_[0] == 'cmp' and KA in (o_[2], o_[3]):
+                        b = o_[3] if o_[2] == KA else o_[2]
+                        eq = (o_[1] in ('==', '<=', '>=')) != neg
+                        if eq == pol and b == ('const', 0):
+                            how = ('zero', None)
+                        elif eq == pol and _wpath(b) is not None:
+                            how = ('target', _wpath(b))
+                    if how is not None:
+                        closes.append((e, K, how))
+            continue
         if (e.data['attr'], e.data['val'][1] if e.data['val'] in (T.TRUE, T.FALSE) else None) in closing:
             for K in e.data['wdec']:
                 how = reached(e, K)
@@ -500,11 +526,41 @@ def _size_ok(m, P):
 
 
 # ============================================================ who may start
+def _sync_driver_param(ctx, f, call):
+    """`call` is `self._h(...)` in the synchronous function `f`, where `_h` is a private synchronous helper that drives
+    to completion what one of its parameters makes (`loop.run_until_complete(p())`): -> {parameter: argument node}"""
+    if not (isinstance(call, ast.Call) and isinstance(call.func, ast.Attribute) and isinstance(call.func.value, ast.Name)
+            and call.func.value.id == 'self' and f is not None and f.cls is not None and not f.is_async):
+        return None
+    h = ctx.prog.supplier(f.cls, call.func.attr)
+    if h is None or h.is_async or not h.name.startswith('_'):
+        return None
+    drv = [c for c in walk_local(h.node) if isinstance(c, ast.Call) and isinstance(c.func, ast.Attribute)
+           and c.func.attr == 'run_until_complete']
+    if len(drv) != 1 or len(drv[0].args) != 1:
+        return None
+    a = drv[0].args[0]
+    if not (isinstance(a, ast.Call) and isinstance(a.func, ast.Name) and a.func.id in h.params and not a.args):
+        return None
+    ps = list(h.params)[(0 if h.is_static else 1):]
+    given = dict(zip(ps, call.args))
+    given.update({k.arg: k.value for k in call.keywords if k.arg})
+    return given.get(a.func.id)
+
+
 def who_may_start(ctx, rep, rule):
     """R01.1 / R07.4: the only places a member's co_run is awaited or scheduled"""
     r = ctx.roles
     p = ctx.prog
     n = 0
+    # the synchronous entry may hand `self.co_run` (or `lambda: self.co_run(...)`) to a private helper that drives it
+    for f in p.all_functions():
+        for call in walk_local(f.node):
+            v = _sync_driver_param(ctx, f, call) if f.cls in (r.sched, r.jobbase) else None
+            if isinstance(v, ast.Attribute) and v.attr == 'co_run' and isinstance(v.value, ast.Name) and v.value.id == 'self':
+                n += 1
+                rep.check(True, rule, "%s:%d co_run handed to the synchronous driver" % (f.module.relpath, call.lineno),
+                          f.qualname, "", "", detail="documented synchronous top-level entry")
     mods = list(p.modules.values())
     extra = getattr(ctx, 'control_modules', [])
     for mod in mods:
@@ -535,6 +591,12 @@ def who_may_start(ctx, rep, rule):
                     and isinstance(par.func, ast.Attribute) and par.func.attr == 'run_until_complete' \
                     and f is not None and not f.is_async and f.cls in (r.sched, r.jobbase):
                 ok, why = True, "documented synchronous top-level entry"
+            elif isinstance(recv, ast.Name) and recv.id == 'self' and isinstance(par, ast.Lambda) and par.body is node \
+                    and not par.args.args and f is not None and f.cls in (r.sched, r.jobbase) \
+                    and _sync_driver_param(ctx, f, getattr(par, '_parent', None)
+                                           if not isinstance(getattr(par, '_parent', None), ast.keyword)
+                                           else getattr(par._parent, '_parent', None)) is par:
+                ok, why = True, "documented synchronous top-level entry, through its private driver"
             rep.check(ok, rule, "%s co_run call" % where, fq, "`%s`" % src(stmt_of(node)),
                       "a job body is started outside the guarded, windowed start path: it can run before its "
                       "requirements are done and outside the window", detail=why)
@@ -698,6 +760,67 @@ def slot_adjacency(ctx, rep, rule):
     rep.ok(rule, "%s: %d other suspension points examined" % (fn, n))
 
 
+def failure_read_when_it_happens(ctx, rep, rule):
+    """what the wrapper does with the slot of a failing job (keep it, close the window) and what the run does about
+    the failure (abort or go on) are one decision taken twice: both must ask the job when the failure happens.  A
+    handler of the wrapper that uses a value sampled from the job when the task was created decides on old news"""
+    r = ctx.roles
+    w, fac, jv = r.WRAP, r.wrap_factory, r.wrap_jobvar
+    fn = w.qualname
+    if fac is None or fac is w or jv is None:
+        rep.ok(rule, "%s: the wrapper has no enclosing factory to sample the job in" % fn)
+        return
+    sampled = {}
+    for n in fac.node.body:
+        if isinstance(n, ast.Assign) and len(n.targets) == 1 and isinstance(n.targets[0], ast.Name):
+            if any(isinstance(m, (ast.Attribute, ast.Call)) and isinstance(getattr(m, 'func', m), ast.Attribute)
+                   and isinstance(getattr(m, 'func', m).value, ast.Name) and getattr(m, 'func', m).value.id == jv
+                   for m in ast.walk(n.value)):
+                sampled[n.targets[0].id] = n
+    bodies = [w] + ([r.WRAP_BODY] if getattr(r, 'WRAP_BODY', None) not in (None, w) else [])
+    handlers = [h for b in bodies for n in walk_local(b.node) if isinstance(n, ast.Try) for h in n.handlers]
+    if not handlers:
+        # the failure of the job is dealt with somewhere else (a context manager, a helper object): what the closure
+        # captured from the factory is then looked for wherever the wrapper reads it
+        handlers = [b.node for b in bodies]
+    local = {m.id for b in bodies for m in walk_local(b.node) if isinstance(m, ast.Name) and isinstance(m.ctx, ast.Store)}
+    local |= {a for b in bodies if b is not w for a in b.params}
+    n = 0
+    for h in handlers:
+        for m in ast.walk(h):
+            if isinstance(m, ast.Name) and isinstance(m.ctx, ast.Load) and m.id in sampled and m.id not in local:
+                n += 1
+                rep.fail(rule, "%s:%d the handler asks the job now" % (w.module.relpath, m.lineno), fn,
+                         "`%s` was sampled when the task was created (`%s`, line %d) and is used when the job fails"
+                         % (m.id, src(sampled[m.id])[:70], sampled[m.id].lineno),
+                         "a job whose criticality changed in between is critical for the window and not for the run (or "
+                         "the reverse): the window closes while the run goes on, every job started afterwards parks "
+                         "for ever")
+    rep.ok(rule, "%s: %d handler(s), %d stale read(s)" % (fn, len(handlers), n))
+
+
+def no_suspension_after_body(ctx, rep, rule):
+    """once the body has finished the wrapper reaches its end without letting the loop run: the job is reported done
+    at the first quiescent point after its body ended (giving the slot back does not suspend: trusted fact T4)"""
+    r = ctx.roles
+    an, ip, out = ctx.wrap(gen_cancel=True, gen_bodyexc=True)
+    fn = r.WRAP.qualname
+    n = 0
+    for e in an.events('SUSPEND', 'AWAIT_ALL', 'WAIT', 'SHUT', 'PARK', 'ACQ'):
+        if not e.st.a('body_started', False):
+            continue
+        if e.kind == 'ACQ' and not e.data.get('awaited'):
+            continue
+        n += 1
+        rep.fail(rule, "%s the wrapper ends as soon as the body has" % e.where, fn,
+                 "`%s` suspends after the body of the job has finished (or raised)" % src(e.node),
+                 "for as long as this lasts the body is over while is_done() is still False; a cancellation that "
+                 "lands there turns a job that completed into a cancelled one", trace(e.st))
+    bodies = an.events('BODY')
+    rep.need(rule, len(bodies), 1, "bodies in the wrapper")
+    rep.ok(rule, "%s: no suspension point after the body (%d found)" % (fn, n))
+
+
 # ================================================================ generic lints
 JOB_SOURCES_ATTR = ('jobs', 'required')
 JOB_SOURCES_CALL = ('entry_jobs', 'exit_jobs', 'topological_order', 'iterate_jobs', 'successors', 'predecessors',
@@ -796,7 +919,8 @@ def no_state_across_calls(ctx, rep, rule, funcs):
         a = f.node.args
         for d in list(a.defaults) + [x for x in a.kw_defaults if x is not None]:
             mutable = isinstance(d, (ast.List, ast.Dict, ast.Set)) or (
-                isinstance(d, ast.Call) and isinstance(d.func, ast.Name) and d.func.id in MUTABLE_CALLS)
+                isinstance(d, ast.Call) and isinstance(d.func, ast.Name) and (
+                    d.func.id in MUTABLE_CALLS or d.func.id in ctx.prog.classes))     # an object of the package
             n += 1
             rep.check(not mutable, rule, "%s:%d default argument" % (f.module.relpath, d.lineno), f.qualname,
                       "mutable default argument `%s` in %s" % (src(d), f.qualname),
@@ -851,14 +975,26 @@ def sync_wrapper(ctx, rep, rule, name):
                  "%s() returns None whatever happened" % name, trace(st))
     rep.need(rule, n, 1, "exits of %s" % fn)
     # the drive is not protected by a handler, and happens once
-    drives = [c for c in walk_local(f.node) if isinstance(c, ast.Call) and (
-        (isinstance(c.func, ast.Attribute) and c.func.attr == 'run_until_complete') or dotted(c.func) == 'asyncio.run')]
+    # (in the wrapper itself, or in the private helper it hands the coroutine - or a way to make it - to)
+    walked = [f] + [ctx.prog.funcs[q] for q in sorted(ip.inlined) if q in ctx.prog.funcs and ctx.prog.funcs[q] is not f
+                    and ctx.prog.funcs[q].name.startswith('_') and not ctx.prog.funcs[q].is_async]
+    owner = {}
+    drives = []
+    for g in walked:
+        for c in walk_local(g.node):
+            if isinstance(c, ast.Call) and ((isinstance(c.func, ast.Attribute) and c.func.attr == 'run_until_complete')
+                                            or dotted(c.func) == 'asyncio.run'):
+                drives.append(c)
+                owner[id(c)] = g
     rep.check(len(drives) == 1, rule, "%s drives the coroutine once" % fn, fn,
               "%d calls of run_until_complete / asyncio.run" % len(drives),
               "the run is performed twice, or not at all")
     for c in drives:
-        for t in walk_local(f.node):
-            if isinstance(t, ast.Try) and t.handlers and any(c is x for b in t.body for x in ast.walk(b)):
+        for t in [t_ for g_ in ([f] if owner[id(c)] is f else [f, owner[id(c)]]) for t_ in walk_local(g_.node)]:
+            if isinstance(t, ast.Try) and t.handlers and any(
+                    c is x or (owner[id(c)] is not f and isinstance(x, ast.Call) and isinstance(x.func, ast.Attribute)
+                               and x.func.attr == owner[id(c)].name)
+                    for b in t.body for x in ast.walk(b)):
                 rep.fail(rule, "%s:%d the drive is not inside a handler" % (f.module.relpath, c.lineno), fn,
                          "`%s` runs under `try ... except %s`" % (src(c)[:60], ", ".join(
                              src(h.type) if h.type is not None else "<bare>" for h in t.handlers)),
@@ -866,8 +1002,26 @@ def sync_wrapper(ctx, rep, rule, name):
                          "cancellation) is swallowed or replaced by the synchronous wrapper")
         # the coroutine is not wrapped in another bound
         arg = c.args[0] if c.args else None
-        direct = isinstance(arg, ast.Call) and isinstance(arg.func, ast.Attribute) and arg.func.attr == co \
-            and isinstance(arg.func.value, ast.Name) and arg.func.value.id == 'self'
+        def own_call(a):
+            return isinstance(a, ast.Call) and isinstance(a.func, ast.Attribute) and a.func.attr == co \
+                and isinstance(a.func.value, ast.Name) and a.func.value.id == 'self'
+        direct = own_call(arg)
+        g = owner[id(c)]
+        if not direct and g is not f and isinstance(arg, ast.Call) and isinstance(arg.func, ast.Name) \
+                and arg.func.id in g.params and not arg.args and not arg.keywords:
+            # the helper is given a way to make the coroutine: the bound method itself, or `lambda: self.co_x(...)`
+            ps = list(g.params)[(0 if g.is_static else 1):]
+            for call in walk_local(f.node):
+                if isinstance(call, ast.Call) and isinstance(call.func, ast.Attribute) and call.func.attr == g.name \
+                        and isinstance(call.func.value, ast.Name) and call.func.value.id == 'self':
+                    given = dict(zip(ps, call.args))
+                    given.update({k.arg: k.value for k in call.keywords if k.arg})
+                    v = given.get(arg.func.id)
+                    if isinstance(v, ast.Attribute) and v.attr == co and isinstance(v.value, ast.Name) \
+                            and v.value.id == 'self':
+                        direct = True
+                    elif isinstance(v, ast.Lambda) and not v.args.args and own_call(v.body):
+                        direct = True
         rep.check(direct, rule, "%s:%d drives %s() itself" % (f.module.relpath, c.lineno, co), fn,
                   "`%s`" % src(c)[:100], "the coroutine is wrapped (another timeout, a shield, a task): the run no "
                   "longer behaves as %s()" % co)
@@ -1105,8 +1259,14 @@ def topo_loops(ctx, f, depth=2, _seen=None, exclude=()):
     if f is None or f.qualname in _seen:
         return []
     _seen.add(f.qualname)
-    out = [n for n in walk_local(f.node) if isinstance(n, (ast.For, ast.comprehension)) and isinstance(n.iter, ast.Call)
-           and dotted(n.iter.func) == 'self.topological_order']
+    def is_topo(e):
+        # (`list(...)` / `tuple(...)` keep the order of what they are given)
+        while isinstance(e, ast.Call) and isinstance(e.func, ast.Name) and (
+                (e.func.id in ('list', 'tuple', 'iter') and len(e.args) == 1 and not e.keywords)
+                or (e.func.id == 'enumerate' and 1 <= len(e.args) <= 2)):
+            e = e.args[0]
+        return isinstance(e, ast.Call) and dotted(e.func) == 'self.topological_order'
+    out = [n for n in walk_local(f.node) if isinstance(n, (ast.For, ast.comprehension)) and is_topo(n.iter)]
     if depth > 0 and f.cls is not None:
         for n in walk_local(f.node):
             if isinstance(n, ast.Call) and isinstance(n.func, ast.Attribute) and isinstance(n.func.value, ast.Name) \
@@ -1288,6 +1448,20 @@ def topo_consumed_opaquely(ctx, f, depth=2, _seen=None):
                 if topo_consumed_opaquely(ctx, ctx.prog.supplier(f.cls, n.func.attr), depth - 1, _seen):
                     return True
     return False
+
+
+def topo_reordered(ctx, f):
+    """calls in f that take `self.topological_order()` and give its items back in another order (sorted, reversed, a
+    set): -> [call nodes]"""
+    out = []
+    for n in ast.walk(f.node):
+        if isinstance(n, ast.Call) and dotted(n.func) == 'self.topological_order':
+            par = getattr(n, '_parent', None)
+            if isinstance(par, ast.Call) and n in par.args and \
+                    (dotted(par.func) or '').split('.')[-1] in ('sorted', 'reversed', 'set', 'frozenset', 'BestSet',
+                                                                'shuffle', 'sample', 'nsmallest', 'nlargest'):
+                out.append(par)
+    return out
 
 
 # ======================================================= a job is never asked whether it is iterable
